@@ -6,6 +6,8 @@ module E = Engine
 
 let clients : E.client array ref = ref [||]
 let events : (int, E.event) Hashtbl.t = Hashtbl.create 64
+let joined : bool array ref = ref [||]
+let retention : int ref = ref 5
 
 let ni s = n_of_int (int_of_string s)
 let si n = string_of_int (int_of_n n)
@@ -47,9 +49,19 @@ let handle_proto (toks : string list) : string =
   match a.(0) with
   | "RESET" ->
     let n = i 1 and mask = i 2 and ret = i 3 in
+    let spare = if Array.length a > 5 then i 5 else 0 in
     Hashtbl.reset events;
-    clients := Array.init n (fun j -> E.init_client (n_of_int j) (j = 0 || (mask lsr j) land 1 = 1) (n_of_int ret));
+    clients := Array.init (n + spare) (fun j -> E.init_client (n_of_int j) (j = 0 || (mask lsr j) land 1 = 1) (n_of_int ret));
+    joined := Array.init (n + spare) (fun j -> j < n);
+    retention := ret;
     "RESET"
+  | "JOIN" ->   (* PR JOIN <j> <ev> | state= epoch= data= : spare client j joins through the welcome of add-commit ev *)
+    let j = i 1 in
+    if refused then "skip" else begin
+      let g k d = try L.assoc k facts with Not_found -> d in
+      !clients.(j) <- E.join_client (n_of_int j) false (n_of_int !retention) (ni (g "state" "0")) (ni (g "epoch" "1")) (ni (g "data" "0"));
+      !joined.(j) <- true;
+      fingerprint !clients.(j) "ok" None end
   | "COMMIT" ->
     let m = i 1 and ev = i 3 in
     if refused then fingerprint !clients.(m) "Err" None else begin
@@ -64,7 +76,7 @@ let handle_proto (toks : string list) : string =
     let m = i 1 in !clients.(m) <- E.restart !clients.(m); fingerprint !clients.(m) "ok" None
   | "CLEAR" ->
     let m = i 1 in !clients.(m) <- E.clear_pending !clients.(m); fingerprint !clients.(m) "ok" None
-  | "SEND" ->
+  | "SEND" | "SENDF" ->
     let m = i 1 and ev = i 2 in
     if refused then fingerprint !clients.(m) "Err" None else begin
       let e = mk_event ev 1 facts a.(3) (i 4) in
@@ -88,6 +100,7 @@ let handle_proto (toks : string list) : string =
     let ev = i 1 in Hashtbl.replace events ev (mk_event ev 3 facts a.(2) 0); "ok"
   | "DELIVER" ->
     let m = i 1 and ev = i 2 in
+    if not !joined.(m) then "skip" else
     (match Hashtbl.find_opt events ev with
      | None -> "skip"
      | Some e ->
